@@ -6,7 +6,7 @@ import z3
 from . import front
 from .api import CONTRACTS, CLASSDEFS
 from .engine import *  # noqa
-from .engine import Val, State, Obligation, Unsupported, EngineError, fresh, I, B, S, R
+from .engine import Val, State, Obligation, Unsupported, EngineError, fresh, I, B, S, R, NONE_VAL, CLASS_BY_ID
 from .expr import ExprMixin
 from .calls import CallMixin
 from .loops import LoopMixin, CompMixin
@@ -117,7 +117,72 @@ class Executor(ExprMixin, CallMixin, LoopMixin, CompMixin, SqliteMixin, BuiltinM
         m = getattr(self, "st_" + type(s).__name__, None)
         if m is None:
             raise Unsupported(f"statement {type(s).__name__} at line {getattr(s, 'lineno', '?')}")
+        if isinstance(s, (ast.Assign, ast.Expr, ast.Return, ast.AugAssign, ast.AnnAssign)):
+            names = self.class_receivers(s, st)
+            if names:
+                return self.split_on_class(s, st, names[0], m)
         return m(s, st)
+
+    # -- dynamic dispatch on a variable that holds a class ------------------------------------------
+    def class_receivers(self, s, st):
+        """Names used as `name.method(...)` in the statement whose value is a *symbolic* class object."""
+        out = []
+        for n in ast.walk(s):
+            if isinstance(n, ast.Call) and isinstance(n.func, ast.Attribute) and isinstance(n.func.value, ast.Name):
+                v = st.env.get(n.func.value.id)
+                if v is not None and (v.ty == CLS or (v.ty.name == "Opt" and v.ty.args[0] == CLS)) and n.func.value.id not in out:
+                    out.append(n.func.value.id)
+        return out
+
+    def split_on_class(self, s, st, name, m):
+        """Case split: the variable is None, or one of the classes known to the run (obligation: there is no other
+        case); in each case the statement is executed with the variable bound to that class."""
+        v = st.env[name]
+        isnone, tag = self._cls_view(v, st)
+        line = getattr(s, "lineno", None)
+        cands = sorted(CLASS_BY_ID.items())
+        self.oblige(st, f"dispatch:{name}@{line}", z3.Or(isnone, *[tag == k for k, _ in cands]),
+                    clause=f"{name} holds None or one of the classes {[ci.qualname.split('.')[-1] for _, ci in cands]}", site=line)
+        outs = []
+
+        def consts(t, acc):
+            todo, seen = [t], set()
+            while todo:
+                x = todo.pop()
+                if x.get_id() in seen:
+                    continue
+                seen.add(x.get_id())
+                if z3.is_const(x) and x.decl().kind() == z3.Z3_OP_UNINTERPRETED:
+                    acc.add(x.get_id())
+                todo.extend(x.children())
+            return acc
+
+        mine = consts(tag, consts(isnone, set()))
+        related = [h for h in st.hyp() if not z3.is_quantifier(h) and consts(h, set()) & mine]
+
+        def infeasible(cond):
+            # pruning only: a case excluded by the path facts about this variable need not be executed
+            # (fewer facts / an `unknown` only keep a case that could have been dropped)
+            sv = z3.Solver()
+            sv.set("timeout", 500)
+            sv.add(*related, cond)
+            return sv.check() == z3.unsat
+
+        if not z3.is_false(z3.simplify(isnone)) and not infeasible(isnone):
+            c = st.copy()
+            c.assume(isnone)
+            c.env = dict(c.env)
+            c.env[name] = NONE_VAL
+            outs.extend(self.exec_stmt(s, c))
+        for k, ci in cands:
+            if infeasible(z3.And(z3.Not(isnone), tag == k)):
+                continue
+            c = st.copy()
+            c.assume(z3.And(z3.Not(isnone), tag == k))
+            c.env = dict(c.env)
+            c.env[name] = Val(FN, ("class", ci))
+            outs.extend(self.exec_stmt(s, c))
+        return outs
 
     def st_Pass(self, s, st):
         return [st]
@@ -426,6 +491,7 @@ class Executor(ExprMixin, CallMixin, LoopMixin, CompMixin, SqliteMixin, BuiltinM
         fi = self.world.function(qualname)
         c = contract or CONTRACTS[qualname]
         self.active = {qualname: c}
+        self.cur_contract = c
         self.ghost_hit = set()
         short = qualname
         self.cur_fn = short
@@ -495,9 +561,9 @@ class Executor(ExprMixin, CallMixin, LoopMixin, CompMixin, SqliteMixin, BuiltinM
             if c.get("returns") and not fi.is_generator:
                 rty = parse_type(c["returns"])
                 rv = penv["result"]
-                if rv.ty != rty and rty.name in ("List", "Dict", "Opt") and rv.ty.name != "SDict":
+                if rv.ty != rty and rty.name in ("List", "Dict", "Opt", "Tuple", "Obj", "Cls") and rv.ty.name != "SDict":
                     try:
-                        penv["result"] = from_sort_term(to_sort_term(rv, rty), rty)
+                        penv["result"] = self.coerce_val(rv, rty, o, "result-type:result")
                     except Unsupported:
                         pass
             for gname in list(c.get("ghost_vars", {})) + list(c.get("ghost_returns", {})):
